@@ -24,6 +24,7 @@ pub fn scenario_regime(tier: &str, poor_debt: bool) -> (Life, Bounds) {
         horizon: None,
         big: false,
         tick_faults: false,
+        bystander: false,
     };
     let b = if th {
         Bounds { max_depth: 400, wall_cap_s: 1500.0, ..Default::default() }
@@ -59,6 +60,7 @@ pub fn scenario_tick_faults(tier: &str) -> (Life, Bounds) {
     l.cfg.horizon = Some(if th { 50 } else { 26 });
     l.cfg.precommits = false;
     l.cfg.tick_faults = true;
+    l.cfg.bystander = true;
     l.cfg.sector_sets = sets_small();
     b.max_faults = 1;
     b.wall_cap_s = if th { 900.0 } else { 30.0 };
